@@ -291,7 +291,10 @@ fn check_case(c: &Case, cx: &mut Cx) -> Res {
     shuffle(&mut shuffled, c.perm);
     let argv2 = flags::to_argv(&shuffled);
 
+    let now = || std::time::SystemTime::now().duration_since(std::time::UNIX_EPOCH).map(|d| d.as_secs()).unwrap_or(0);
+    let t0 = now();
     let r1 = cli::version(&argv1, stdin_text.as_deref());
+    let t1 = now();
     let r2 = cli::version(&argv2, stdin_text.as_deref());
     cx.nt_if(levels_touched(&ops) >= 2 || !ops.idx.is_empty());
     cx.label_if(!ops.idx.is_empty(), "index-op");
@@ -322,6 +325,8 @@ fn check_case(c: &Case, cx: &mut Cx) -> Res {
             let mut got = MZerv::from_zerv(&got);
             let mut want = z.clone();
             if want.vars.dirty == Some(true) {
+                // a dirty state is stamped with the wall clock, whatever the input or --bumped-timestamp says
+                ensure!(got.vars.bumped_timestamp.is_some_and(|t| t >= t0 && t <= t1), "dirty: bumped_timestamp {:?} is not the wall clock [{t0},{t1}] for {argv1:?}", got.vars.bumped_timestamp);
                 want.vars.bumped_timestamp = None;
                 got.vars.bumped_timestamp = None;
             }
@@ -378,7 +383,7 @@ fn raw_idx_vec() -> BoxedStrategy<Vec<RawIdx>> {
             any::<bool>(),
         )
             .prop_map(|(section, pos, spelling, value, bump)| RawIdx { section, pos, spelling, value: if bump { value } else { Some(value.unwrap_or_else(|| "7".into())) }, bump }),
-        1..3,
+        1..6,
     )
     .boxed()
 }
